@@ -163,8 +163,10 @@ FRAGMENT = ('core fragment of Props/TierC.v: static membership, no dump file, 1 
 PARTIAL = {
     'C01': ['state-machine safety across nodes is a theorem only for the ' + FRAGMENT + '; with compaction, snapshot install, chunked '
             'entries, membership change or restarts it rests on the handler-level theorems, the correspondence and the monitor'],
-    'C02': ['"SUCCESS means committed exactly once and never undone" is proved per handler (C02_success_local, outcome origin) and, through '
-            'committed-entries-never-change, for the ' + FRAGMENT + '; elsewhere: correspondence + monitor'],
+    'C02': ['"SUCCESS means committed and never undone": C02_success_is_committed_core_partial - the entry whose application fired a '
+            'SUCCESS callback sits at an index <= commit with the term it was subscribed with, and every voter that later commits that '
+            'index holds the same entry - for the ' + FRAGMENT + '; the link from the callback id back to the submitted command over '
+            'the whole run (C02_success_is_committed_core_full) is not proved; outside the fragment: correspondence + monitor'],
     'C03': ['election safety: all runs with static membership, no dump file, no restart of voters; leader completeness: ' + FRAGMENT],
     'C04': ['majority-backed commit and log matching across nodes: ' + FRAGMENT + '; applied index monotone: every message handler and '
             'every tick except the restart path (first tick after a restart loads the dump)'],
@@ -182,8 +184,9 @@ PARTIAL = {
     'C18': ['non-interference of read-only nodes is refuted in one respect (a voter whose only connection is an observer starts '
             'elections: C18_noninterference_refuted) and proved for the leader phase; what the property states (no vote, no leadership, '
             'never counted) is proved for all reachable states'],
-    'C20': ['the SUCCESS-callback part of "no commit while cut off" is proved as a commit-index bound only; two state hypotheses of '
-            'C20_bound (leader has a match/last-response slot for every member) are hypotheses'],
+    'C20': ['the SUCCESS-callback part of "no commit while cut off" is proved as a commit-index bound only '
+            '(C20_no_commit_when_cut_partial); the bound itself (C20_bound_reachable_full) holds for every reachable leader state, '
+            'static or dynamic membership, with no state hypothesis left'],
 }
 
 
